@@ -98,7 +98,11 @@ class Pb(Harness):
             S.append(dict(fam="C", n=2, pat=["free", "free"], scale=False, lin=2, nl=0, inside=True))
             S.append(dict(fam="A", n=2, pat=["free", "free"], scale=False, lin=0, nl=1, m=3, inside=True))
         if prop == "C17":
-            S = [s for s in S if s["lin"] or s["nl"]]
+            S = [s for s in S if (s["lin"] or s["nl"]) and s["fam"] != "F"]
+        if prop == "C06":
+            S = [s for s in S if (s["nl"] or s["fam"] == "B") and s["fam"] != "F"]
+        if prop == "C02":
+            S = [s for s in S if s["fam"] != "F"]
         return S
 
     # ------------------------------------------------------------------
